@@ -58,7 +58,7 @@ def run(ctx):
             raised += 1
             if raised % 20:
                 continue          # raising is always accepted; a 1-in-20 sample still goes through the spec
-        cases.append({'a': t1, 'op': name, 'b': t2, 'res': res})
+        cases.append({'a': t1, 'op': name, 'b': t2, 'res': res, 'typing': 'int'})
     verdicts = ctx.validate('Trace_SymCompare', 'Trace_ExprEquiv', cases, timeout=1800)
     definite = wrong = 0
     bykey = {}
@@ -73,6 +73,17 @@ def run(ctx):
             bykey.setdefault(key, (c, clause))
             if len(bykey) < 4:
                 ctx.sample({'a': X.show(c['a']), 'op': c['op'], 'b': X.show(c['b']), 'res': c['res'], 'clause': clause})
+    # classification by the specification: is a wrong answer explained by treating '/' as exact division?
+    items = sorted(bykey.items())
+    if items:
+        ex = ctx.validate('Trace_SymCompare', 'Trace_ExprEquiv',
+                          [{'a': X.realify(c['a']), 'op': c['op'], 'b': X.realify(c['b']), 'res': c['res'], 'typing': 'real'} for _, (c, _) in items])
+        ctx.val_stats.pop()
+        bykey = {}
+        for i, (key, (c, clause)) in enumerate(items):
+            if key.endswith('quot=True'):
+                key = key[:-len('quot=True')] + ('division-exactness' if ex[i][0] else 'quot-other')
+            bykey[key] = (c, clause)
     for key, (c, clause) in sorted(bykey.items()):
         ctx.violation(key, f"symbolic_op({X.show(c['a'])}, {c['op']}, {X.show(c['b'])}) answered {c['res']}: {clause}",
                       {'a': c['a'], 'op': c['op'], 'b': c['b']})
